@@ -6,8 +6,10 @@
 (* with insertion order preserved inside a class (property C17).           *)
 (*                                                                         *)
 (* The state is the handler list as `Pipeline::handlers()` exposes it: a   *)
-(* sequence of [c |-> class, i |-> identity].  Identities are handed out   *)
-(* in call order, so "insertion order" is "increasing identity".           *)
+(* sequence of [c |-> class, i |-> identity of the handler object, k |->   *)
+(* number of the call that inserted the entry].  The same handler object   *)
+(* may be passed to several calls (ReAppendH), so "insertion order" is     *)
+(* "increasing k", not increasing identity.                                *)
 (* Each public call is one action, defined by the DOCUMENTED placement     *)
 (* (docs/api/pipelines.md): a new handler goes after the last handler of   *)
 (* its own or a lower class and before the first handler of a higher       *)
@@ -25,17 +27,19 @@ Rank(c) == CASE c = "attr"      -> 1
 
 VARIABLES hs,      \* the handler list
           next,    \* next fresh identity
-          ncalls   \* number of API calls made so far (bounding only)
+          ncalls,  \* number of API calls made so far
+          made     \* made[i] = class of the handler object with identity i (objects outlive their removal)
 
-vars == <<hs, next, ncalls>>
+vars == <<hs, next, ncalls, made>>
 
-Elem == [c : Classes, i : Nat]
+Elem == [c : Classes, i : Nat, k : Nat]
 
 TypeOK == /\ hs \in Seq(Elem)
           /\ next \in Nat \ {0}
           /\ ncalls \in Nat
+          /\ made \in Seq(Classes) /\ Len(made) = next - 1
 
-Init == hs = <<>> /\ next = 1 /\ ncalls = 0
+Init == hs = <<>> /\ next = 1 /\ ncalls = 0 /\ made = <<>>
 
 ---------------------------------------------------------------------------
 \* Sequence helpers
@@ -55,33 +59,46 @@ Place(s, e) == InsertAt(s, LastLE(s, e.c), e)
 ---------------------------------------------------------------------------
 \* Actions: one per public call
 
-AppendH(c) ==        \* appendAttrHandler / appendFilter / appendSink / appendPipeline (non-null argument)
+AppendH(c) ==        \* appendAttrHandler / appendFilter / appendSink / appendPipeline (a new handler object)
     /\ c \in Classes \ {"formatter"}
-    /\ hs' = Place(hs, [c |-> c, i |-> next])
-    /\ next' = next + 1
+    /\ hs' = Place(hs, [c |-> c, i |-> next, k |-> ncalls + 1])
+    /\ next' = next + 1 /\ made' = Append(made, c)
+    /\ ncalls' = ncalls + 1
+
+ReAppendH(i) ==      \* the same calls with a handler object that was passed before (it may still be in the list)
+    /\ i \in 1..Len(made) /\ made[i] # "formatter"
+    /\ hs' = Place(hs, [c |-> made[i], i |-> i, k |-> ncalls + 1])
+    /\ UNCHANGED <<next, made>>
     /\ ncalls' = ncalls + 1
 
 SetFormatter ==     \* setFormatter(non-null): replaces whatever formatter is there
-    /\ hs' = Place(Keep(hs, LAMBDA x : x.c # "formatter"), [c |-> "formatter", i |-> next])
-    /\ next' = next + 1
+    /\ hs' = Place(Keep(hs, LAMBDA x : x.c # "formatter"), [c |-> "formatter", i |-> next, k |-> ncalls + 1])
+    /\ next' = next + 1 /\ made' = Append(made, "formatter")
+    /\ ncalls' = ncalls + 1
+
+ReSetFormatter(i) == \* setFormatter with a formatter object that was passed before (possibly the installed one)
+    /\ i \in 1..Len(made) /\ made[i] = "formatter"
+    /\ hs' = Place(Keep(hs, LAMBDA x : x.c # "formatter"), [c |-> "formatter", i |-> i, k |-> ncalls + 1])
+    /\ UNCHANGED <<next, made>>
     /\ ncalls' = ncalls + 1
 
 AppendNull ==       \* any typed call with a null pointer: documented no-op
-    /\ UNCHANGED <<hs, next>>
+    /\ UNCHANGED <<hs, next, made>>
     /\ ncalls' = ncalls + 1
 
 Clear(c) ==         \* clearAttrHandlers / clearFilters / clearFormatters / clearSinks / clearPipelines / clear(type)
     /\ c \in Classes
     /\ hs' = Keep(hs, LAMBDA x : x.c # c)
-    /\ UNCHANGED next
+    /\ UNCHANGED <<next, made>>
     /\ ncalls' = ncalls + 1
 
 ClearAll ==         \* clear()
     /\ hs' = <<>>
-    /\ UNCHANGED next
+    /\ UNCHANGED <<next, made>>
     /\ ncalls' = ncalls + 1
 
 Next == \/ \E c \in Classes \ {"formatter"} : AppendH(c)
+        \/ \E i \in 1..Len(made) : ReAppendH(i) \/ ReSetFormatter(i)
         \/ SetFormatter
         \/ AppendNull
         \/ \E c \in Classes : Clear(c)
@@ -96,9 +113,9 @@ ClassSorted == \A a, b \in 1..Len(hs) : a < b => Rank(hs[a].c) <= Rank(hs[b].c)
 
 OneFormatter == Cardinality({k \in 1..Len(hs) : hs[k].c = "formatter"}) <= 1
 
-StableWithinClass == \A a, b \in 1..Len(hs) : (a < b /\ hs[a].c = hs[b].c) => hs[a].i < hs[b].i
+StableWithinClass == \A a, b \in 1..Len(hs) : (a < b /\ hs[a].c = hs[b].c) => hs[a].k < hs[b].k
 
-NoDuplicates == \A a, b \in 1..Len(hs) : a # b => hs[a].i # hs[b].i
+NoDuplicates == \A a, b \in 1..Len(hs) : a # b => hs[a].k # hs[b].k     \* one entry per inserting call
 
 \* consequences the statement spells out
 AttrsBeforeFiltersAndFormatters ==
